@@ -272,11 +272,16 @@ func (rd *remoteDelivery) connectionForDomain(ctx context.Context, domain string
 	// each other. Therefore it is enough to enforce strict security only on
 	// the path to the MX even if it does not support the REQUIRETLS to propagate
 	// this requirement further.
+	//
+	// Note: This affects only the MAIL command sent to this MX. The message
+	// metadata is shared with other recipient domains (and delivery attempts)
+	// and so must not be changed.
+	mailOpts := rd.msgMeta.SMTPOpts
 	if ok, _ := conn.Client().Extension("REQUIRETLS"); rd.rt.relaxedREQUIRETLS && !ok {
-		rd.msgMeta.SMTPOpts.RequireTLS = false
+		mailOpts.RequireTLS = false
 	}
 
-	if err := conn.Mail(ctx, rd.mailFrom, rd.msgMeta.SMTPOpts); err != nil {
+	if err := conn.Mail(ctx, rd.mailFrom, mailOpts); err != nil {
 		conn.Close()
 		return nil, err
 	}
